@@ -1,23 +1,11 @@
 import FrappyDrive.Util
 import FrappyModel.Spec.C19
-import FrappyModel.Generated.C19
+import FrappyModel.Small.DiscoveryTables
 /- line-protocol glue for C19.  Strings travel as arrays of code points, byte strings as arrays of numbers. -/
 namespace Frappy.Drive.C19
 open Lean Frappy.Drive Frappy.Discovery Frappy.Spec.C19
 
-def catchesTable : Exc → Bool
-  | .unicodeDecodeError => Generated.C19.catchesUnicodeDecodeError
-  | .jsonDecodeError => Generated.C19.catchesJSONDecodeError
-  | .valueError => Generated.C19.catchesValueError
-  | .recursionError => Generated.C19.catchesRecursionError
-  | .typeError => Generated.C19.catchesTypeError
-  | .other => false
-
-def tables : Tables :=
-  { maxLen := Generated.C19.maxMessageLen, recvBuf := Generated.C19.recvBufSize,
-    budgetPort := Generated.C19.budgetPort, fwPrefix := Generated.C19.firmwarePrefix,
-    seg0 := Generated.C19.seg0, seg1 := Generated.C19.seg1, seg2 := Generated.C19.seg2,
-    seg3 := Generated.C19.seg3, seg4 := Generated.C19.seg4, catches := catchesTable }
+def tables : Tables := generatedTables
 
 def cps (j : Json) : R Str := do return (← (← arr j).mapM (·.getNat?)).map Char.ofNat
 def fldCps (j : Json) (k : String) : R Str := do cps (← fld j k)
